@@ -552,6 +552,13 @@ impl datagram_pipe::Sink for DatagramSink {
         {
             Ok(_) => Ok(datagram_pipe::SendStatus::Sent),
             Err(e) => {
+                #[cfg(trusttunnel_verif)]
+                crate::verif_emit!(
+                    "S5Send",
+                    "\"s\":\"{}\",\"d\":\"{}\",\"ok\":false",
+                    meta.source,
+                    meta.destination
+                );
                 // An error reported by the association socket (for example, ECONNREFUSED
                 // after an ICMP "port unreachable" from the relay) costs this datagram only:
                 // the multiplexer and the flows of the other associations must go on
